@@ -14,6 +14,13 @@ CLAIMED = {
          "§4 C15", "Lean theorems on definitions generated from the source + differential validation of the translator"),
  "C16": ("proof", "Core-Lean theorems for all n_cols and n_threads>=1: chunks cover 0..n-1 exactly once in order, are non-empty, contiguous, at most n_threads, sizes differ by <=1; threaded block evaluation = column-wise evaluation for every rhs; scan through an order-preserving map = sequential. Model tied to _multithreading_indices exhaustively (1..16 x 1..400) and to _chunked_adv_rhs bit-exactly. PARTIAL: real thread/process interleavings and fresh-process repetition are runtime behaviour, exercised by bit-exact monitors, not proved.",
          "§4 C16", "Lean theorems (bookkeeping, all sizes) + exhaustive correspondence + bit-exact runtime monitors"),
+
+ "C07": ("proof", "Theorems over ℝ about the hand model of eixs_vec over tables regenerated from the source each run: for every Z in 1..105, cs<Z, every E: entry >= 0, exactly 0 at and below the smallest binding energy of the charge state, > 0 above, bare nucleus 0, Z+1 entries; coefficient lookup rule stated outright; table facts (occupied => bound, 0<a, 0<=b<1, 0<=c, no KeyError) decided by the kernel over all 5565 rows x 30 shells. Model tied to the code by exhaustive bit-exact comparison of tables and Lotz coefficient arrays (105 elements) and by eixs_vec vs model at thresholds +-1ulp and on a log grid.",
+         "§4 C07", "Lean theorems (analytic + decide +kernel table facts) on generated tables + bit-exact correspondence"),
+ "C08": ("proof", "Theorems: precomputed (Z_eff, n_eff) equal the documented (Z+q)/2 and n0+(1-w)-0.3 with n0 the highest occupied principal shell for all 105 elements and charge states (table fact 1<=n0, occ<=2n0^2 by kernel), n_eff>=0.7; entry q>=1 equals the Kim-Pratt expression, >0 for E>0, strictly decreasing in E; neutral entry exactly 0. Correspondence: rr_z_eff/rr_n_0_eff bit-exact, rrxs_vec to 1e-11.",
+         "§4 C08", "Lean theorems on hand model over generated tables + correspondence"),
+ "C09": ("proof", "Generated normpdf = documented pdf; integral over ℝ of the per-charge-state cross section = tabulated strength sum x 1e-24 x kappa with kappa=sqrt(pi/PI), |kappa-1|<1e-15 (the package's PI is a 16-digit literal), independent of width; maximum only at the resonance; half maximum at mu±sigma*sqrt(2ln2); |2sqrt(2ln2)/2.35482-1|<1e-7; accumulation loop = filtered sum; non-negative; neutral entry 0 and only charge states 1..Z assigned (kernel-decided over all 12012 rows); identically zero without data (14 elements). Correspondence: tables exact, normpdf and drxs_vec to 1e-11; quadrature monitors for strength and FWHM.",
+         "§4 C09", "Lean theorems (Mathlib Gaussian integral) on generated + hand model, exhaustive table facts, correspondence"),
 }
 PENDING = {}
 def main():
